@@ -18,11 +18,12 @@ IT = []
 for nm, desc, tiers, cost in (
         ("c01_it_st_m0_g0_t2", "storage, nothing detected yet, 0 garbage, 2 tail", T, 500),
         ("c01_it_st_m0_g1_t2", "storage, nothing detected yet, 1 garbage byte, 2 tail (added after seeded change C01-2)", T, 600),
-        ("c01_it_st_m1_g0_t2", "storage, storage detected, 0 garbage, 2 tail", Q, 400),
+        ("c01_it_st_m1_g0_t2", "storage, storage detected, 0 garbage, 2 tail", T, 400),
         ("c01_it_st_m1_g1_t2", "storage, storage detected, 1 garbage, 2 tail", T, 500),
         ("c01_it_st_m1_g2_t3", "storage, storage detected, 2 garbage, 3 tail", T, 200),
         ("c01_it_st_m1_g3_t2", "storage, storage detected, 3 garbage, 2 tail", T, 300),
-        ("c01_it_se_m0_g0_t2", "serial, nothing detected yet, 0 garbage, 2 tail (stream shorter than 20 B)", Q, 400),
+        ("c01_it_se_m0_g0_t2", "serial, nothing detected yet, 0 garbage, 2 tail (stream shorter than 20 B)", T, 400),
+        ("c01_it_se_m0_g0_t0", "serial, nothing detected yet, 0 garbage, no tail (stream of exactly one 8-byte message; 536 s: as expensive as the 2-tail variant, so thorough as well)", T, 200),
         ("c01_it_se_m2_g0_t2", "serial, serial detected, 0 garbage, 2 tail", Q, 300),
         ("c01_it_se_m2_g1_t2", "serial, serial detected, 1 garbage, 2 tail", T, 400),
         ("c01_it_se_m2_g3_t3", "serial, serial detected, 3 garbage, 3 tail", T, 300)):
@@ -47,7 +48,7 @@ PROP = {
              "(paper argument in DESIGN 2/C01). Bounds: payload <= 5 B, tail <= 8 B, garbage <= 4 B per step.",
         note=TB + "payload bytes beyond 5 are one Vec::from copy (outside); reading through LowMarkBufReader is C04; logging off (log = None).",
         technique="bounded model checking of the real code (Kani/CBMC): shape-enumerated accept/reject lemmas + inductive iterator step"),
-    "jobs": {"quick": 7, "thorough": 5},
+    "jobs": {"quick": 8, "thorough": 5},
     "seed_extra": [("c01_acc_", 1, 40)],
     "inject": [("src/dlt/mod.rs", "dlt_frame.rs"), ("src/utils/dltmessageiterator.rs", "dlt_iter.rs"), ("src/utils/dltmessageiterator.rs", "dlt_iter_abs.rs")],
     "functions": ["dlt::parse_dlt_with_storage_header", "dlt::parse_dlt_with_serial_header", "DltMessage::from_headers", "DltStorageHeader::{from_buf,reception_time_us}",
